@@ -2,7 +2,7 @@
 import json
 from gen import common, xpoll, sysattr, btcp, ux, framing
 
-LEAN_MODULE = ["XcmModel.Props.C16", "XcmModel.Props.Utls", "XcmModel.Props.Timer"]
+LEAN_MODULE = ["XcmModel.Props.C16", "XcmModel.Props.Utls", "XcmModel.Props.Timer", "XcmModel.Props.Dns"]
 THEOREMS = [
     "XcmModel.Xpoll.kinv_fdRegMod", "XcmModel.Xpoll.kinv_fdRegAdd", "XcmModel.Xpoll.kinv_fdRegDel",
     "XcmModel.Xpoll.updateActive_post", "XcmModel.C16.reach_good",
@@ -13,6 +13,7 @@ THEOREMS = [
     "XcmModel.UtlsProps.C04_utls_condition_passed_down",
     "XcmModel.C16btls.C16_btls_idle_silent", "XcmModel.C16btls.C16_btls_idle_flush_only", "XcmModel.C16btls.C16_btls_blocked_send_is_accepted", "XcmModel.C16btls.C16_btls_quiet_after_eagain", "XcmModel.C16btls.C16_btls_quiet_after_eagain_retained", "XcmModel.C16btls.C16_btls_bell_reason",
     "XcmModel.TimerProps.timer_inv_run", "XcmModel.TimerProps.C16_timer_quiet", "XcmModel.TimerProps.C16_no_timers_quiet", "XcmModel.TimerProps.C16_wakeup_confirmed",
+    "XcmModel.DnsProps.dns_inv_run", "XcmModel.DnsProps.C16_dns_quiet",
 ]
 
 
@@ -179,6 +180,10 @@ def run(ctx):
     from gen import timer as _timer
     _timer.run_part(ctx, 40 if ctx.tier == "quick" else 1500, label="c16timer")
     ctx.rule += " unit_timer: the real timer_mgr.c (scripted clock, recorded timerfd_settime, K-timerfd probed on the real kernel) vs the Lean TimerMgr model on every short two-user history and on random histories with stale ids; monitor: the timerfd is always armed at the earliest live deadline, ids are never reused, a cancel removes exactly the timer named."
+    # the asynchronous resolver front end on top of the timer manager
+    from gen import dnsq as _dnsq
+    _dnsq.run_part(ctx, 60 if ctx.tier == "quick" else 2500, label="c16dnsq")
+    ctx.rule += " unit_dnsq: the real xcm_dns_cares.c over the real timer_mgr.c with c-ares scripted (callback kind, descriptor set, timeout per call), clock scripted, timerfd and xpoll calls recorded, vs the Lean DnsQuery model: state, channel registrations, timer ids, timerfd setting, timer list, result and tries after every call, for every (dns.timeout, synchronous answer, later answer, time relative to the deadline) combination and random histories; monitor: deadline honoured and not anticipated, completion sticky and rung, no registration left, failure ladders leave nothing."
 
 def replay(path):
     r = json.load(open(path))
